@@ -310,6 +310,45 @@ func (e *Engine) specBuiltin(env *Env, name string, ex *SExpr) (Val, bool) {
 		c := e.contentOf(env.st, b)
 		reg.declareFun("lib!digest", []string{"Str", "Str"}, "Str")
 		return Val{S: fmt.Sprintf("(lib!digest %s %s)", strLit("sha256"), c), T: tString}, true
+	case "fresh":
+		// fresh(x): the reference x was allocated during the call (it is above the allocation frontier of the pre-state)
+		if !env.hasOld {
+			env.errf("fresh() needs a pre-state")
+			return Val{}, false
+		}
+		x := arg(0)
+		a0, ok := env.oldSnap["$alloc"]
+		if !ok {
+			a0 = env.st.init["$alloc"]
+		}
+		ref := x.S
+		if _, isSlice := x.T.Underlying().(*types.Slice); isSlice {
+			ref = slRef(x.S)
+		}
+		return Val{S: fmt.Sprintf("(> %s %s)", ref, a0), T: tBool}, true
+	case "elems":
+		// elems(s, n): the set of the first n elements of slice s (ghost set); recursive definition over n
+		if env.quant > 0 || env.st == nil {
+			env.errf("elems() is not available inside quantifiers")
+			return Val{}, false
+		}
+		sv := arg(0)
+		n := arg(1)
+		slt, ok := sv.T.Underlying().(*types.Slice)
+		if !ok || sortOf(slt.Elem()) != "Int" {
+			env.errf("elems() needs a slice of integers")
+			return Val{}, false
+		}
+		hn, hs := elemHeapName(slt.Elem())
+		row := sel(env.heap(hn, hs), slRef(sv.S))
+		off := slOff(sv.S)
+		reg.declareFun("elems!Int", []string{"(Array Int Int)", "Int", "Int"}, "(Array Int Bool)")
+		rn := env.st.freshConst("elemsrow", "(Array Int Int)")
+		env.st.assume(eq(rn, row))
+		env.st.assume(fmt.Sprintf("(= (elems!Int %s %s 0) ((as const (Array Int Bool)) false))", rn, off))
+		env.st.assume(fmt.Sprintf("(forall ((n!e Int)) (! (=> (> n!e 0) (= (elems!Int %s %s n!e) (store (elems!Int %s %s (- n!e 1)) (select %s (+ %s (- n!e 1))) true))) :pattern ((elems!Int %s %s n!e))))",
+			rn, off, rn, off, rn, off, rn, off))
+		return Val{S: fmt.Sprintf("(elems!Int %s %s %s)", rn, off, n.S), T: &ghostMapType{key: slt.Elem(), elem: tBool}}, true
 	case "same":
 		// same(a, b): two slices have the same header (backing array, offset, length)
 		a, b := arg(0), arg(1)
